@@ -202,13 +202,15 @@ def run_case(case, ctx):
     elif pick == 5:
         from sktime.forecasting.base import ForecastingHorizon
         fh_arg = ForecastingHorizon(pd.RangeIndex(fh[0], fh[-1] + 1, fh[1] - fh[0])) if equally_spaced and n % 2 else ForecastingHorizon(list(fh))
+    # window / step / initial lengths as Python ints or as the numpy integers a parameter sweep over np.arange hands out
+    NI = (lambda v: v) if (n + hmax) % 3 else (lambda v: None if v is None else [np.int64, np.int32, np.int64][(n + hmax) % 3 + (v % 2)](v))
     if kind in ("sliding", "expanding"):
         wl, step, sww, iw = case["wl"], case["step"], case["sww"], case["iw"]
         status, ref = _ref_window(kind, n, wl, step, fh, sww, iw)
         if kind == "sliding":
-            cv = SlidingWindowSplitter(fh=fh_arg, window_length=wl, step_length=step, initial_window=iw, start_with_window=sww)
+            cv = SlidingWindowSplitter(fh=fh_arg, window_length=NI(wl), step_length=NI(step), initial_window=NI(iw), start_with_window=sww)
         else:
-            cv = ExpandingWindowSplitter(fh=fh_arg, initial_window=wl, step_length=step, start_with_window=sww)
+            cv = ExpandingWindowSplitter(fh=fh_arg, initial_window=NI(wl), step_length=NI(step), start_with_window=sww)
     elif kind == "single":
         wl = case["wl"]
         c = n - 1 - hmax
@@ -218,7 +220,7 @@ def run_case(case, ctx):
             lo = 0 if wl is None else max(0, c - wl + 1)
             status = "ok" if (wl is None or wl + hmax <= n) else "nofit"
             ref = [(list(range(lo, c + 1)), [c + h for h in fh], c)]
-        cv = SingleWindowSplitter(fh=fh_arg, window_length=wl)
+        cv = SingleWindowSplitter(fh=fh_arg, window_length=NI(wl))
     else:
         wl = case["wl"]
         cs = sorted(case["cutoffs"])
@@ -228,7 +230,7 @@ def run_case(case, ctx):
         if status == "ok" and any(c - wl + 1 < 0 for c in cs):
             status = "truncated"
         carg = np.array(case["cutoffs"]) if case["ctype"] == "array" else pd.Index(case["cutoffs"])
-        cv = CutoffSplitter(carg, fh=fh_arg, window_length=wl)
+        cv = CutoffSplitter(carg, fh=fh_arg, window_length=NI(wl))
 
     # ---- drive the real generator ------------------------------------------------
     got, err = [], None
